@@ -6,6 +6,7 @@ import (
 	"go/types"
 	"sort"
 	"strings"
+	"sync"
 
 	"golang.org/x/tools/go/ssa"
 )
@@ -165,8 +166,11 @@ func (x *Exec) flow(fr *Frame, li *loopInfo, in map[*ssa.BasicBlock][]*State, fr
 
 // phiCell returns a pseudo-alloc key for a phi node.
 var phiCells = map[*ssa.Phi]*ssa.Alloc{}
+var phiMu sync.Mutex
 
 func phiCell(fr *Frame, phi *ssa.Phi) *ssa.Alloc {
+	phiMu.Lock()
+	defer phiMu.Unlock()
 	if a, ok := phiCells[phi]; ok {
 		return a
 	}
@@ -393,7 +397,9 @@ func (x *Exec) enterLoop(fr *Frame, lr *loopRec, st *State) *State {
 		}
 		x.heap(st, t) // make sure it exists
 		nh := x.S.Const("hh", x.te.HeapSort(t))
-		x.bumpHeapVersion(st)
+		if dataHeap(t) {
+			x.bumpHeapVersion(st)
+		}
 		st.heaps[k] = nh
 		x.heapTypes[k] = t
 		// automatic frame invariant: every region that existed at function entry
